@@ -251,7 +251,7 @@ def bounded_size(e):
 
 
 # ---------------------------------------------------------------------------------------------------------------
-def may_panic(an, rep, side, rule_id):
+def may_panic(an, rep, side, rule_id, min_roots=90, min_reach=100):
     """N1 (side='decode') / N2 (side='encode')."""
     core = an.core()
     cg = callgraph.CallGraph(core)
@@ -260,8 +260,8 @@ def may_panic(an, rep, side, rule_id):
     R = rep.rule(rule_id, "every may-panic site (MIR assert, panic call, callee documented `# Panics`) reachable from "
                           "Roots(%s) is discharged: constant/interval, dominating guard, paired typestate, or a frozen "
                           "allow-list entry with its reason" % side)
-    R.floor("roots(%s)" % side, len(roots), 90)
-    R.floor("reachable functions", len(paths), 100)
+    R.floor("roots(%s)" % side, len(roots), min_roots)
+    R.floor("reachable functions", len(paths), min_reach)
     counts = {}
     undisposed = {}
     n_assert = n_panic = n_ext = 0
